@@ -28,14 +28,12 @@ fn is_tuple_fields(fs: &[Field]) -> bool {
     true
 }
 
-static KEYWORDS: [&str; 53] = [
+static KEYWORDS: [&str; 51] = [
     "actor",
     "and",
     "async",
-    "async*",
     "assert",
     "await",
-    "await*",
     "break",
     "case",
     "catch",
